@@ -3,10 +3,11 @@ import PydraModel.WfState.Spec
 import PydraModel.WfState.Model
 import PydraModel.WfState.Class
 import PydraModel.WfState.Simple
+import PydraModel.WfState.Rerun
 open Lean PydraModel PydraModel.DriverUtil PydraModel.WfState
 
 /-! JSON-lines driver for engine `WfState` (C03).  Input: the harness' workflow case (see harness/engines/wfstate.py);
-output: `{"spec": …, "model": …, "cls": …}`. -/
+output: `{"spec": …, "model": …, "model2": … (second run on the same objects), "cls": …}`. -/
 
 partial def valOfJson (j : Json) : Except String Val :=
   match j with
@@ -115,12 +116,17 @@ def handle (j : Json) : Json :=
       | .ok r => Json.mkObj [("out", .arr (r.outs.map (valToJson names)).toArray), ("jobs", jobsJson names r.jobs),
                              ("jobouts", jobOutsJson names r.jobOuts)]
       | .error e => Json.mkObj [("error", .str e)]
-    let model := match Model.run w with
+    let modelJson (r : Model.M Model.Result) : Json := match r with
       | .ok r => Json.mkObj [("out", .arr (r.outs.map (valToJson names)).toArray), ("jobs", jobsJson names r.jobs),
                              ("jobouts", jobOutsJson names r.jobOuts)]
       | .error (.crash c) => Json.mkObj [("error", .str (crashName c))]
       | .error (.unmodelled why) => Json.mkObj [("unmodelled", .str why)]
       | .error (.malformed why) => Json.mkObj [("malformed", .str why)]
-    Json.mkObj [("spec", spec), ("model", model), ("cls", (Class.toJson w).setObjVal! "simple" (Simple.simple w))]
+    let model := modelJson (Model.run w)
+    -- a second run over the same node/state objects (only meaningful when the first one succeeded)
+    let model2 := match Model.runTwice w with
+      | .ok (_, r2) => modelJson r2
+      | .error _ => Json.null
+    Json.mkObj [("spec", spec), ("model", model), ("model2", model2), ("cls", (Class.toJson w).setObjVal! "simple" (Simple.simple w))]
 
 def main : IO Unit := run handle
